@@ -5,6 +5,7 @@ import PromqlVerif.LTS.ConcurrentThms
 import PromqlVerif.LTS.WorkerThms
 import PromqlVerif.Proofs.EngInd
 import PromqlVerif.Properties.C04
+import PromqlVerif.Proofs.StreamsProof
 namespace PromqlVerif.C13
 open PromqlVerif Val
 
@@ -46,5 +47,35 @@ theorem invalid_k_is_handled (top w : Bool) (g : List String) (p : V) (v : Vec V
 /-- planning never fails with anything but "unsupported" -/
 theorem planning_total (c : Ctx V) (e : Expr V) (er : Err) (h : engOp c e = .error er) : er = .unsupported :=
   engOp_err c e er h
+
+/-! ### data-dependent indexing between operators (`Streams.lean`) -/
+
+open Streams in
+/-- **the operators' unchecked positional indexing never leaves its range.** The function operator
+reads `scalars[i]` for the i-th vector of a batch, the coalesce appends a child's i-th vector to
+`out[i]` (sized by whichever child arrived first), unary minus and the aggregations hand vector
+`i` to `workers[i]` - none of them checks the index, and a violation is a runtime panic on
+whichever goroutine runs that `Next`. For every plan tree whose leaves share the query window, and
+every number of calls, all these indices are in range (`runSafe`): a consequence of the alignment
+theorem of C18 - siblings deliver batches of the same length, at most `B` long. Tied to the code by
+the `kpull` correspondence (the real operators over scripted children). -/
+theorem positional_indexing_in_range {α : Type} (d0 : α) (k : Cfg) (hs : 0 < k.step) (hB : 0 < k.B)
+    (n : Nat) (p : Plan α) (stop cur : Int) (hal : Al k stop cur p) : runSafe k n p = true :=
+  aligned_run_safe d0 k hs hB n p stop cur hal
+
+open Streams in
+/-- the hypothesis is what keeps it safe: with the scalar child one batch ahead of the vector child
+near the end of the window (26 steps, batches of 10: the vector child delivers 10 vectors, the
+scalar child its last 6) `scalars[6]` does not exist -/
+example :
+    let p : Plan Int := .fn true (fun _ a s => max a (s.getD 0)) (.leaf (fun t => t) 25 10 10) (.leaf (fun t => t) 25 20 10)
+    safeNow ⟨1, 10⟩ p = false := by decide
+
+open Streams in
+/-- and an aligned plan of the same shape is safe at every call -/
+example :
+    let p : Plan Int := .fn true (fun _ a s => max a (s.getD 0)) (.leaf (fun t => t) 25 0 10) (.leaf (fun t => t) 25 0 10)
+    Al ⟨1, 10⟩ 25 0 p ∧ runSafe ⟨1, 10⟩ 5 p = true := by
+  refine ⟨by simp [Al, At], by decide⟩
 
 end PromqlVerif.C13
